@@ -340,8 +340,15 @@ func runC07(c *Ctx) error {
 			pre, known := e.snapshot()
 			dstIsSelf := netip.AddrFrom16([16]byte(p.data[32:48])) == self
 			pt := e.pingTerm(p)
-			if !dstIsSelf {
-				// a ping for someone else is routed, not handled: the model sees it as not authentic for R
+			isPingType := false
+			switch frame.MessageType(p.data[4]) {
+			case frame.RouterPing, frame.RouterCtrl, frame.RouterHopPing, frame.RouterHopPingDeprecated:
+				isPingType = true
+			}
+			if !dstIsSelf || !isPingType {
+				// a ping for someone else is routed, not handled, and a frame whose type byte no longer names a
+				// ping type never reaches the ping handler (no first-contact admission either): the model
+				// sees it as not authentic for R
 				pt = fmt.Sprintf("(mkPing %s false false false false (%d)%%Z %d %d %s %d 0 0 0 false)", ipN(p.src), frameTimeMs(p.data), p.kind, p.code, coqBool(p.follow), p.mtu)
 			}
 			res := e.R.inject(p.data, recv)
